@@ -34,6 +34,7 @@ import collections
 import json
 import os
 import random
+import signal
 import sys
 
 from fv import repo
@@ -149,6 +150,28 @@ def mutants(rng, s, k=6):
             i = rng.randrange(len(s))
             out.append(s[:i] + s[i] + s[i:])
     return out
+
+
+class CaseTimeout(Exception):
+    """the real parser did not finish within CASE_SECONDS on one sample"""
+
+
+CASE_SECONDS = 10
+
+
+def _alarm(signum, frame):
+    raise CaseTimeout()
+
+
+class time_limit:
+    def __enter__(self):
+        self.old = signal.signal(signal.SIGALRM, _alarm)
+        signal.setitimer(signal.ITIMER_REAL, CASE_SECONDS)
+
+    def __exit__(self, *a):
+        signal.setitimer(signal.ITIMER_REAL, 0)
+        signal.signal(signal.SIGALRM, self.old)
+        return False
 
 
 # ------------------------------------------------------------------------------- recording
@@ -552,15 +575,24 @@ def run(seed, n, exe=None, verbose=False, max_per_class=400):
                     SYMBOL_TABLES.clear()
                 except Exception:  # noqa: BLE001
                     pass
-                if r["kind"] == "generic":
-                    chk.check(r, cls, t)
-                if r["kind"] in ("generic", "hand", "other_base"):
-                    how, msg = leaf_roundtrip(cls, t)
+                try:
+                    with time_limit():
+                        if r["kind"] == "generic":
+                            chk.check(r, cls, t)
+                        how, msg = ("skip", None)
+                        if r["kind"] in ("generic", "hand", "other_base"):
+                            how, msg = leaf_roundtrip(cls, t)
+                except CaseTimeout:
+                    how, msg = "crash", "%s(%r) does not finish within %d s" % (
+                        cls.__name__, t, CASE_SECONDS)
+                if how != "skip":
                     leaf[how] += 1
                     if how == "fail":
                         leaf_fail[key].append((len(t), t, msg))
                     elif how == "crash":
                         leaf_crash[key].append((len(t), t, msg))
+                    if verbose and how in ("fail", "crash"):
+                        print("  [%s] %s %s" % (how, key, msg), flush=True)
     ParserFactory().create(std="f2003")
 
     per, kinds = extract_combi.counts(rows)
